@@ -9,6 +9,9 @@
 //! concurrently with the readers. Schedules are SAMPLED: real OS threads plus generated perturbation
 //! (spin/yield/sleep before every reader operation, generated coupling of mutator steps to reader progress).
 //!
+//! Sub-checks: `repack` (threads), `sequential` and `slot-reuse` (one script interpreter, two generators; the second is
+//! built to reach slot reuse in the store with packs of identical layout).
+//!
 //! Oracle: (safety, self-certifying) whatever `try_find` returns for id X hashes to X (SHA-1 computed by the
 //! harness), `try_header` agrees with the truth table from `git cat-file --batch-check`, `lookup_prefix` never
 //! returns an id without that prefix or outside the repository, pack locations handed out to handles with stable
@@ -42,12 +45,16 @@ enum Step {
     MidxRepackExpire,
     Gc,
     NewCommits { count: u8, as_pack: bool },
+    /// a new history that is isomorphic to the initial one of an `iso` world (same paths, same object sizes, other
+    /// content), stored in a pack of its own which is written without compression: its layout equals the layout of
+    /// the initial pack, offset by offset
+    NewIsoHistory { salt: u8, commits: u8 },
 }
 
 impl Step {
     /// does the step remove files that lookups may be using?
     fn destructive(&self) -> bool {
-        !matches!(self, Step::MidxWrite | Step::NewCommits { .. })
+        !matches!(self, Step::MidxWrite | Step::NewCommits { .. } | Step::NewIsoHistory { .. })
     }
     /// upper bound of the number of index files (pack indices, multi-pack indices) the step creates
     fn index_creations(&self) -> usize {
@@ -58,6 +65,7 @@ impl Step {
             Step::MidxRepackExpire => 2,
             Step::Gc => 2,
             Step::NewCommits { as_pack, .. } => *as_pack as usize,
+            Step::NewIsoHistory { .. } => 1,
         }
     }
     fn name(&self) -> String {
@@ -74,6 +82,7 @@ impl Step {
             Step::MidxRepackExpire => "multi-pack-index repack+expire".into(),
             Step::Gc => "gc".into(),
             Step::NewCommits { count, as_pack } => format!("{count} new commits as {}", if *as_pack { "pack" } else { "loose objects" }),
+            Step::NewIsoHistory { salt, commits } => format!("isomorphic history #{salt} of {commits} commits as uncompressed pack"),
         }
     }
 }
@@ -92,6 +101,8 @@ struct ReaderSpec {
     perturb: u8,
     /// out of 256: how often an id that is not in the repository is asked for
     absent: u8,
+    /// not generated: set by the script interpreter to direct one operation at one object (sweeps over all objects)
+    force: Option<u32>,
 }
 
 #[derive(Debug, Clone, Hash)]
@@ -107,6 +118,9 @@ struct WorldSpec {
     slots: u16,
     use_midx: bool,
     readers: Vec<ReaderSpec>,
+    /// the initial world is ONE history of `commits_a` commits in ONE pack written without compression (see
+    /// `Step::NewIsoHistory`); `commits_b` and the pre-steps are not used
+    iso: bool,
 }
 
 fn gen_step(t: &mut Tape) -> Step {
@@ -147,6 +161,7 @@ fn gen_world(t: &mut Tape) -> WorldSpec {
             mix,
             perturb: t.below(5) as u8,
             absent: [8u8, 32, 64, 128][t.below(4)],
+            force: None,
         });
     }
     let nsteps = t.range(4, 12);
@@ -180,6 +195,7 @@ fn gen_world(t: &mut Tape) -> WorldSpec {
         slots: [6u16, 8, 12, 32][t.weighted(&[2, 2, 3, 3])],
         use_midx: !t.chance(64),
         readers,
+        iso: false,
     }
 }
 
@@ -216,13 +232,21 @@ fn kind_name(k: gix_object::Kind) -> &'static str {
 }
 
 fn blob_content(file: usize, version: usize) -> String {
+    blob_content_salted(file, version, 0)
+}
+
+/// words of equal length: histories that differ only in the salt have objects of pairwise equal sizes
+const ISO_WORDS: [&str; 8] = ["stays", "holds", "keeps", "rests", "lives", "abide", "dwell", "reads"];
+
+fn blob_content_salted(file: usize, version: usize, salt: usize) -> String {
     // ~600 bytes, mostly shared between versions of the same file so that git stores deltas
+    let word = ISO_WORDS[salt % ISO_WORDS.len()];
     let mut s = String::new();
     for line in 0..24 {
         if line == version % 24 {
             s.push_str(&format!("line {line} of file {file} changed in version {version}\n"));
         } else {
-            s.push_str(&format!("line {line} of file {file} stays the same\n"));
+            s.push_str(&format!("line {line} of file {file} {word} the same\n"));
         }
     }
     s
@@ -230,6 +254,10 @@ fn blob_content(file: usize, version: usize) -> String {
 
 /// fast-import stream adding `count` commits (numbered from `first`) to refs/heads/<branch>
 fn commits_stream(branch: &str, first: usize, count: usize, files: usize, from: Option<&str>, tag: bool) -> Vec<u8> {
+    commits_stream_salted(branch, first, count, files, from, tag, 0)
+}
+
+fn commits_stream_salted(branch: &str, first: usize, count: usize, files: usize, from: Option<&str>, tag: bool, salt: usize) -> Vec<u8> {
     let mut s = String::new();
     for k in 0..count {
         let i = first + k;
@@ -244,7 +272,7 @@ fn commits_stream(branch: &str, first: usize, count: usize, files: usize, from: 
         }
         for j in 0..1 + i % 2 {
             let f = (i * 7 + j * 3) % files;
-            let content = blob_content(f, i);
+            let content = blob_content_salted(f, i, salt);
             s.push_str(&format!("M 100644 inline d{}/s{}/f{f}\ndata {}\n{}\n", f % 3, f % 2, content.len(), content));
         }
         s.push('\n');
@@ -298,7 +326,7 @@ fn run_step(git: &Git, step: &Step) -> Result<(), String> {
             Ok(())
         }
         Step::Gc => run(&["gc", "-q"]),
-        Step::NewCommits { .. } => Err("NewCommits is handled by the caller".into()),
+        Step::NewCommits { .. } | Step::NewIsoHistory { .. } => Err("new histories are handled by the caller".into()),
     }
 }
 
@@ -426,6 +454,10 @@ struct ReaderOut {
     distinct_pack_ids: BTreeMap<usize, BTreeSet<u32>>,
     locations_verified: u64,
     panic: Option<(String, String)>,
+    /// wrong content that is explained by the handle's pack cache alone (see `wrong_content`): counted, the first one
+    /// described; the case is reported under the signature of that cause once nothing else is wrong with it
+    stale_pack_cache: u64,
+    stale_pack_cache_note: Option<String>,
 }
 
 #[derive(PartialEq)]
@@ -523,6 +555,28 @@ fn classify_miss(h: &OdbHandle, o: &Obj, op: &str) -> (String, String) {
 
 type OdbHandle = gix_odb::Handle;
 
+/// `try_find` handed out bytes that are not the requested object. If the handle has a pack cache and the very same
+/// handle returns the right bytes once the caches of the `gix_odb::Cache` wrapper are bypassed (the store handle
+/// beneath, asked with `gix_pack::cache::Never`), the cause is the pack cache: it is keyed by (pack id, offset), pack ids
+/// denote slots of the store, and the entries of a pack that used to live in a slot survive the slot being handed to
+/// another pack. That is one root cause with its own signature; everything else stays `wrong-content`.
+fn wrong_content(h: &OdbHandle, spec: &ReaderSpec, o: &Obj, out: &mut ReaderOut, msg: String) {
+    if spec.pack_cache != 0 {
+        let mut buf = Vec::new();
+        let uncached = PackFind::try_find_cached(&**h, &o.id, &mut buf, &mut gix_pack::cache::Never);
+        if let Ok(Some((data, _))) = uncached {
+            if data.kind == o.kind && object_sha1(kind_name(data.kind), data.data) == o.hex {
+                out.stale_pack_cache += 1;
+                if out.stale_pack_cache_note.is_none() {
+                    out.stale_pack_cache_note = Some(format!("{msg}; the same handle returns the right bytes when its pack cache is bypassed"));
+                }
+                return;
+            }
+        }
+    }
+    out.violations.push(("wrong-content".into(), msg));
+}
+
 struct StoredLocation {
     obj: usize,
     location: gix_pack::data::entry::Location,
@@ -548,7 +602,17 @@ fn one_op(
         Known(Obj, usize),
         Absent(ObjectId),
     }
-    let target = if (rng.below(256) as u8) < spec.absent {
+    let target = if let Some(k) = spec.force {
+        let k = k as usize;
+        if k < shared.always.len() {
+            Target::Known(shared.always[k].clone(), k)
+        } else {
+            match shared.published.read().unwrap().get(k - shared.always.len()) {
+                Some(o) => Target::Known(o.clone(), k),
+                None => return,
+            }
+        }
+    } else if (rng.below(256) as u8) < spec.absent {
         let id = if rng.below(2) == 0 {
             let mut b = [0u8; 20];
             for c in b.chunks_mut(8) {
@@ -588,19 +652,19 @@ fn one_op(
                     match PackFind::try_find(h, &o.id, buf) {
                         Ok(Some((data, location))) => {
                             let got = object_sha1(kind_name(data.kind), data.data);
-                            if got != o.hex || data.kind != o.kind {
-                                out.violations.push((
-                                    "wrong-content".into(),
-                                    format!(
-                                        "try_find({}) [{mode}] returned a {} of {} bytes hashing to {got} (location {:?}); expected a {} of {} bytes",
-                                        o.hex,
-                                        kind_name(data.kind),
-                                        data.data.len(),
-                                        location,
-                                        kind_name(o.kind),
-                                        o.size
-                                    ),
-                                ));
+                            let wrong = (got != o.hex || data.kind != o.kind).then(|| {
+                                format!(
+                                    "try_find({}) [{mode}] returned a {} of {} bytes hashing to {got} (location {:?}); expected a {} of {} bytes",
+                                    o.hex,
+                                    kind_name(data.kind),
+                                    data.data.len(),
+                                    location,
+                                    kind_name(o.kind),
+                                    o.size
+                                )
+                            });
+                            if let Some(msg) = wrong {
+                                wrong_content(h, spec, o, out, msg);
                             }
                             if let Some(l) = location {
                                 out.distinct_pack_ids.entry(*idx).or_default().insert(l.pack_id);
@@ -1034,6 +1098,9 @@ macro_rules! infra_opt {
 
 fn world_labels(c: &mut Case, w: &WorldSpec, steps: &[&Step]) {
     c.label(match w.slots {
+        2 => "slots-2",
+        3 => "slots-3",
+        4 => "slots-4",
         6 => "slots-6",
         8 => "slots-8",
         12 => "slots-12",
@@ -1056,6 +1123,7 @@ fn world_labels(c: &mut Case, w: &WorldSpec, steps: &[&Step]) {
             Step::Gc => "step-gc",
             Step::NewCommits { as_pack: true, .. } => "step-new-pack",
             Step::NewCommits { as_pack: false, .. } => "step-new-loose",
+            Step::NewIsoHistory { .. } => "step-new-isomorphic-pack",
         });
         if let Step::RepackIncremental { midx: true } | Step::RepackAll { midx: true, .. } | Step::Geometric { midx: true } = s {
             c.label("step-write-midx");
@@ -1068,15 +1136,19 @@ fn build_world(c: &mut Case, w: &WorldSpec, steps: &[&Step], tag: &str) -> Optio
     let world = infra_opt!(c, World::new(tag, true), "world");
     let git = world.git.clone().cfg("pack.threads=1").cfg("gc.writeCommitGraph=false");
     let objects_dir: PathBuf = world.git_dir().join("objects");
-    let stream = commits_stream("main", 0, w.commits_a as usize, w.files as usize, None, true);
-    infra_opt!(c, git.clone().cfg(unpack_cfg(w.a_as_pack)).run_in(["fast-import", "--quiet"], Some(&stream)), "fast-import A");
-    for s in &w.pre_a {
-        infra_opt!(c, run_step(&git, s), "pre-step");
-    }
-    let stream = commits_stream("main", w.commits_a as usize, w.commits_b as usize, w.files as usize, Some("refs/heads/main^0"), false);
-    infra_opt!(c, git.clone().cfg(unpack_cfg(w.b_as_pack)).run_in(["fast-import", "--quiet"], Some(&stream)), "fast-import B");
-    for s in &w.pre_b {
-        infra_opt!(c, run_step(&git, s), "pre-step");
+    if w.iso {
+        infra_opt!(c, iso_history(&git, "main", w.commits_a as usize, w.files as usize, 0), "isomorphic history 0");
+    } else {
+        let stream = commits_stream("main", 0, w.commits_a as usize, w.files as usize, None, true);
+        infra_opt!(c, git.clone().cfg(unpack_cfg(w.a_as_pack)).run_in(["fast-import", "--quiet"], Some(&stream)), "fast-import A");
+        for s in &w.pre_a {
+            infra_opt!(c, run_step(&git, s), "pre-step");
+        }
+        let stream = commits_stream("main", w.commits_a as usize, w.commits_b as usize, w.files as usize, Some("refs/heads/main^0"), false);
+        infra_opt!(c, git.clone().cfg(unpack_cfg(w.b_as_pack)).run_in(["fast-import", "--quiet"], Some(&stream)), "fast-import B");
+        for s in &w.pre_b {
+            infra_opt!(c, run_step(&git, s), "pre-step");
+        }
     }
     let table = infra_opt!(c, batch_check(&git, None), "batch-check all objects");
     let reachable = infra_opt!(c, git.run(["rev-list", "--objects", "--all", "--no-object-names"]), "rev-list");
@@ -1166,6 +1238,41 @@ fn new_handle(first: &OdbHandle, r: &ReaderSpec) -> OdbHandle {
     h
 }
 
+/// A history of `commits` commits on a new branch that shares no object with any other history, as loose objects first,
+/// then in one pack of its own that is written without compression (`pack.compression=0`), so that the offset of every
+/// entry depends on object sizes and order only. Returns the ids of the new objects.
+fn iso_history(git: &Git, branch: &str, commits: usize, files: usize, salt: usize) -> Result<Vec<String>, String> {
+    let old_tips = git.run(["for-each-ref", "--format=%(objectname)"])?;
+    let stream = commits_stream_salted(branch, 0, commits, files, None, false, salt);
+    git.clone().cfg(unpack_cfg(false)).run_in(["fast-import", "--quiet"], Some(&stream))?;
+    let mut args: Vec<String> = vec!["rev-list".into(), "--objects".into(), format!("refs/heads/{branch}")];
+    for tip in String::from_utf8_lossy(&old_tips).lines() {
+        args.push(format!("^{tip}"));
+    }
+    let list = git.run(&args)?;
+    git.clone().cfg("pack.compression=0").run_in(["pack-objects", "-q", "objects/pack/pack"], Some(&list))?;
+    git.run(["prune-packed", "-q"])?;
+    Ok(String::from_utf8_lossy(&list)
+        .lines()
+        .filter_map(|l| l.split(' ').next().map(str::to_string))
+        .filter(|l| !l.is_empty())
+        .collect())
+}
+
+fn publish(git: &Git, new_ids: &[String], was_loose: bool, shared: &Shared) -> Result<(), String> {
+    let table = batch_check(git, Some(new_ids))?;
+    let mut by_id = shared.by_id.write().unwrap();
+    let mut published = shared.published.write().unwrap();
+    for (id, hex, kind, size) in table {
+        if by_id.contains_key(&id) {
+            continue;
+        }
+        by_id.insert(id, shared.always.len() + published.len());
+        published.push(Obj { id, hex, kind, size, was_loose });
+    }
+    Ok(())
+}
+
 /// run one step of the history; new objects are published to the readers once git is done creating them
 fn apply_step(git: &Git, step: &Step, si: usize, next_commit: &mut usize, files: usize, shared: &Shared) -> Result<(), String> {
     if let Step::NewCommits { count, as_pack } = step {
@@ -1180,23 +1287,10 @@ fn apply_step(git: &Git, step: &Step, si: usize, next_commit: &mut usize, files:
         }
         let new_ids = git.run(&args)?;
         let new_ids: Vec<String> = String::from_utf8_lossy(&new_ids).lines().map(|l| l.trim().to_string()).filter(|l| !l.is_empty()).collect();
-        let table = batch_check(git, Some(&new_ids))?;
-        let mut by_id = shared.by_id.write().unwrap();
-        let mut published = shared.published.write().unwrap();
-        for (id, hex, kind, size) in table {
-            if by_id.contains_key(&id) {
-                continue;
-            }
-            by_id.insert(id, shared.always.len() + published.len());
-            published.push(Obj {
-                id,
-                hex,
-                kind,
-                size,
-                was_loose: !*as_pack,
-            });
-        }
-        Ok(())
+        publish(git, &new_ids, !*as_pack, shared)
+    } else if let Step::NewIsoHistory { salt, commits } = step {
+        let new_ids = iso_history(git, &format!("iso{si}"), *commits as usize, files, *salt as usize)?;
+        publish(git, &new_ids, false, shared)
     } else {
         run_step(git, step)
     }
@@ -1224,6 +1318,15 @@ fn judge(c: &mut Case, b: &Built, outs: &[ReaderOut], described: &str) -> bool {
     for o in outs {
         if let Some((sig, msg)) = o.violations.first() {
             c.fail_sig(&sig_of(sig), format!("{msg}; world: {described}"));
+            return false;
+        }
+    }
+    for o in outs {
+        if let Some(note) = &o.stale_pack_cache_note {
+            c.fail_sig(
+                "stale-pack-cache:wrong-content",
+                format!("{note} ({} such lookups of this handle); world: {described}", o.stale_pack_cache),
+            );
             return false;
         }
     }
@@ -1343,7 +1446,8 @@ enum Act {
     Git(Step),
     /// `count` operations on one handle: kind 0 = by the handle's mix, 1 = contains only (touches indices, not
     /// packs), 2 = try_find of known objects, 3 = lookups of absent ids (each forces a refresh), 4 = try_header,
-    /// 5 = location_by_oid (handles with stable pack ids), 6 = entry_by_location of remembered locations
+    /// 5 = location_by_oid (handles with stable pack ids), 6 = entry_by_location of remembered locations,
+    /// 7 = try_find of every object once (`count` is ignored), 8 = contains of every object once
     Ops { handle: u8, kind: u8, count: u8, seed: u16 },
     /// drop the handle and create a new one with the same configuration
     Recreate { handle: u8 },
@@ -1367,6 +1471,7 @@ fn gen_sequential(t: &mut Tape) -> (WorldSpec, Vec<Act>) {
             mix,
             perturb: 0,
             absent: 32,
+            force: None,
         });
     }
     // each handle has a habit: 0 mixed, 1 index-only (contains), 2 finder, 3 refresher (absent ids), 4 locator
@@ -1467,13 +1572,107 @@ fn gen_sequential(t: &mut Tape) -> (WorldSpec, Vec<Act>) {
         slots: [6u16, 8, 12, 32][t.weighted(&[2, 2, 3, 3])],
         use_midx: !t.chance(64),
         readers,
+        iso: false,
+    };
+    (w, script)
+}
+
+/// Worlds and scripts built to make the store hand out a slot for the second time while a handle still holds a snapshot
+/// from before: few slots, handle 0 warms up (index-only, or reading everything so that its caches fill), then sleeps
+/// while handle 1 makes the store reconcile with the disk after each of up to slots + 4 rounds of maintenance steps, most of
+/// which replace every index by a new one or add a pack; at the end every handle looks for every object. In `iso`
+/// worlds the packs that are added are isomorphic (see `Step::NewIsoHistory`).
+fn gen_slot_reuse(t: &mut Tape) -> (WorldSpec, Vec<Act>) {
+    let slots = [2u16, 3, 4, 6, 8][t.weighted(&[3, 3, 3, 2, 1])];
+    let iso = t.chance(144);
+    let use_midx = t.chance(80);
+    let mut readers = Vec::new();
+    let nhandles = t.range(2, 3);
+    for i in 0..nhandles {
+        let mut mix = [0u8; 9];
+        let base = [8u8, 5, 5, 3, 1, 2, 4, 4, 1];
+        for (m, b) in mix.iter_mut().zip(base) {
+            *m = b + (t.u8() >> 6);
+        }
+        readers.push(if i == 1 {
+            // the refresher
+            ReaderSpec { auto_refresh: true, stable_pack_ids: false, pack_cache: 0, object_cache: false, seed: 1, mix, perturb: 0, absent: 32, force: None }
+        } else {
+            ReaderSpec {
+                auto_refresh: !t.chance(40),
+                stable_pack_ids: t.chance(20),
+                pack_cache: t.weighted(&[3, 2, 3]) as u8,
+                object_cache: t.chance(40),
+                seed: 1,
+                mix,
+                perturb: 0,
+                absent: 32,
+                force: None,
+            }
+        });
+    }
+    let commits = t.range(10, 20) as u8;
+    let mut script = Vec::new();
+    // warm-up of the sleeper
+    let warm = [8u8, 7, 2, 1][t.weighted(&[4, 4, 1, 1])];
+    script.push(Act::Ops { handle: 0, kind: warm, count: 40, seed: t.u16() });
+    let rounds = t.range(1, slots as usize + 4);
+    let mut salt = 0u8;
+    for _ in 0..rounds {
+        let choice = t.weighted(&[5, 4, 1, 1]);
+        let mut steps: Vec<Step> = Vec::new();
+        match choice {
+            0 => {
+                // replace every index by a new one
+                steps.push(Step::NewCommits { count: 1, as_pack: t.chance(64) });
+                steps.push(Step::RepackAll { loosen_unreachable: false, midx: use_midx && t.chance(160) });
+            }
+            1 => {
+                if iso && (salt as usize) < ISO_WORDS.len() - 1 {
+                    salt += 1;
+                    steps.push(Step::NewIsoHistory { salt, commits });
+                } else {
+                    steps.push(Step::NewCommits { count: t.range(1, 3) as u8, as_pack: true });
+                }
+            }
+            2 => steps.push(Step::MidxWrite),
+            _ => steps.push(gen_step(t)),
+        }
+        for s in steps {
+            script.push(Act::Git(s));
+        }
+        if t.chance(232) {
+            script.push(Act::Ops { handle: 1, kind: 3, count: 1, seed: t.u16() });
+        }
+        if t.chance(24) {
+            let handle = if nhandles > 2 && t.bool() { 2 } else { 0 };
+            script.push(Act::Ops { handle, kind: [2u8, 3, 1, 7][t.below(4)], count: [1u8, 5, 20][t.below(3)], seed: t.u16() });
+        }
+    }
+    for h in 0..nhandles {
+        script.push(Act::Ops { handle: h as u8, kind: 7, count: 0, seed: t.u16() });
+    }
+    let w = WorldSpec {
+        commits_a: commits,
+        commits_b: if iso { 0 } else { t.range(2, 8) as u8 },
+        files: t.range(3, 5) as u8,
+        a_as_pack: true,
+        b_as_pack: t.bool(),
+        pre_a: Vec::new(),
+        pre_b: Vec::new(),
+        steps: Vec::new(),
+        slots,
+        use_midx,
+        readers,
+        iso,
     };
     (w, script)
 }
 
 fn render_sequential(w: &WorldSpec, script: &[Act]) -> String {
     let mut s = format!(
-        "{}+{} commits over {} files ({} / {}), pre-steps {:?} / {:?}; slots {}, midx {}; handles: ",
+        "{}{}+{} commits over {} files ({} / {}), pre-steps {:?} / {:?}; slots {}, midx {}; handles: ",
+        if w.iso { "isomorphic uncompressed packs; " } else { "" },
         w.commits_a,
         w.commits_b,
         w.files,
@@ -1510,6 +1709,8 @@ fn render_sequential(w: &WorldSpec, script: &[Act]) -> String {
                     3 => "absent",
                     4 => "header",
                     5 => "location",
+                    7 => "find-every-object",
+                    8 => "contains-every-object",
                     _ => "location-verify",
                 }
             )),
@@ -1519,151 +1720,201 @@ fn render_sequential(w: &WorldSpec, script: &[Act]) -> String {
     s
 }
 
+/// The interpreter of both script-driven sub-checks: no threads, one operation at a time.
+fn run_script(c: &mut Case, w: &WorldSpec, script: &[Act], tag: &str, reuse_rule: bool) {
+    c.key(&(w, script));
+    c.sample_with(|| render_sequential(w, script));
+    let fp = fingerprint(&(w, script));
+    if cached_failure(c, fp) {
+        return;
+    }
+    let steps: Vec<&Step> = script.iter().filter_map(|a| if let Act::Git(s) = a { Some(s) } else { None }).collect();
+    world_labels(c, w, &steps);
+    // non-trivial: ops(H) .. ops(other) .. destructive git .. ops(other)? .. ops(H), in script order
+    let mut nontrivial = false;
+    for (i, a) in script.iter().enumerate() {
+        if let Act::Git(s) = a {
+            if !s.destructive() {
+                continue;
+            }
+            let before: BTreeSet<u8> = script[..i].iter().filter_map(|a| if let Act::Ops { handle, .. } = a { Some(*handle) } else { None }).collect();
+            let after: Vec<u8> = script[i + 1..].iter().filter_map(|a| if let Act::Ops { handle, .. } = a { Some(*handle) } else { None }).collect();
+            let after_set: BTreeSet<u8> = after.iter().copied().collect();
+            if before.iter().any(|h| after_set.contains(h)) && after_set.len() >= 2 {
+                nontrivial = true;
+            }
+        }
+    }
+    if reuse_rule {
+        // the longest run of maintenance steps, each followed by a lookup of another handle that makes the store
+        // reconcile with the disk, during which handle 0 does nothing although it operated before and operates after
+        let mut longest = 0usize;
+        let mut current = 0usize;
+        let mut h0_before = false;
+        let mut pending_git = false;
+        for a in script {
+            match a {
+                Act::Ops { handle: 0, .. } => {
+                    if h0_before {
+                        longest = longest.max(current);
+                    }
+                    h0_before = true;
+                    current = 0;
+                    pending_git = false;
+                }
+                Act::Ops { .. } => {
+                    if pending_git {
+                        current += 1;
+                        pending_git = false;
+                    }
+                }
+                Act::Git(_) => pending_git = true,
+                Act::Recreate { .. } => {}
+            }
+        }
+        c.label_if(longest >= 2, "handle-0-asleep-for>=2-reconciliations");
+        c.label_if(longest >= w.slots as usize, "handle-0-asleep-for>=slots-reconciliations");
+        c.label_if(w.iso, "isomorphic-packs");
+        nontrivial = longest >= 2;
+    }
+    let Some(mut b) = build_world(c, w, &steps, tag) else { return };
+    // slot-reuse: only worlds in which the store has to hand out a slot for the second time count
+    c.nontrivial(nontrivial && (!reuse_rule || b.wrap_possible));
+    let described = render_sequential(w, script);
+    let mut handles: Vec<Option<OdbHandle>> = Vec::new();
+    for (h, r) in b.handles.drain(..).zip(w.readers.iter()) {
+        let mut h = h;
+        if r.stable_pack_ids {
+            h.prevent_pack_unload();
+        }
+        if !r.auto_refresh {
+            h.refresh_never();
+        }
+        handles.push(Some(h));
+    }
+    let mut outs: Vec<ReaderOut> = w.readers.iter().map(|_| ReaderOut::default()).collect();
+    let mut locations: Vec<Vec<StoredLocation>> = w.readers.iter().map(|_| Vec::new()).collect();
+    let mut buf = Vec::new();
+    let mut next_commit = w.commits_a as usize + w.commits_b as usize;
+    for (ai, a) in script.iter().enumerate() {
+        match a {
+            Act::Git(step) => {
+                if let Err(e) = apply_step(&b.git, step, ai, &mut next_commit, w.files as usize, &b.shared) {
+                    c.infra(format!("step {ai} ({}): {e}", step.name()));
+                    return;
+                }
+            }
+            Act::Recreate { handle } => {
+                let k = *handle as usize;
+                handles[k] = None;
+                locations[k].clear();
+                let r = &w.readers[k];
+                let mut h = new_handle(&b.first, r);
+                if r.stable_pack_ids {
+                    h.prevent_pack_unload();
+                }
+                if !r.auto_refresh {
+                    h.refresh_never();
+                }
+                handles[k] = Some(h);
+            }
+            Act::Ops { handle, kind, count, seed } => {
+                let k = *handle as usize;
+                let r = &w.readers[k];
+                let mut spec = r.clone();
+                let mut rng = Rng(*seed as u64 * 2 + 1);
+                let total: u32 = r.mix.iter().map(|m| *m as u32).sum();
+                let sweep = matches!(kind, 7 | 8);
+                let n_objects = b.shared.always.len() + b.shared.published.read().unwrap().len();
+                let iterations = if sweep { n_objects } else { *count as usize };
+                for it in 0..iterations {
+                    spec.force = sweep.then_some(it as u32);
+                    let op = match kind {
+                        0 => {
+                            spec.absent = 32;
+                            let mut x = rng.below(total as usize) as u32;
+                            let mut op = 0;
+                            for (i, m) in r.mix.iter().enumerate() {
+                                if x < *m as u32 {
+                                    op = i;
+                                    break;
+                                }
+                                x -= *m as u32;
+                            }
+                            op
+                        }
+                        1 => {
+                            spec.absent = 0;
+                            2
+                        }
+                        2 => {
+                            spec.absent = 0;
+                            0
+                        }
+                        3 => {
+                            spec.absent = 255;
+                            [0usize, 2, 1][rng.below(3)]
+                        }
+                        4 => {
+                            spec.absent = 0;
+                            1
+                        }
+                        5 => {
+                            spec.absent = 0;
+                            6
+                        }
+                        7 => 0,
+                        8 => 2,
+                        _ => 7,
+                    };
+                    let h = handles[k].as_ref().expect("handle present");
+                    let out = &mut outs[k];
+                    let res = std::panic::catch_unwind(std::panic::AssertUnwindSafe(|| {
+                        one_op(h, r.auto_refresh, r.stable_pack_ids, op, &b.shared, &mut rng, &spec, out, &mut buf, &mut locations[k]);
+                    }));
+                    outs[k].ops += 1;
+                    if res.is_err() {
+                        let tid = std::thread::current().id();
+                        let rec = THREAD_PANICS
+                            .lock()
+                            .ok()
+                            .and_then(|mut g| g.iter().rposition(|(t, _, _)| *t == tid).map(|p| g.remove(p)));
+                        outs[k].panic = Some(rec.map(|(_, l, m)| (l, m)).unwrap_or_else(|| ("unknown".into(), "panic".into())));
+                        break;
+                    }
+                }
+                if outs[k].panic.is_some() || !outs[k].violations.is_empty() {
+                    break;
+                }
+            }
+        }
+    }
+    drop(handles);
+    if !judge(c, &b, &outs, &described) {
+        remember_failure(c, fp);
+        return;
+    }
+    let _ = outcome_labels(c, &b, &outs);
+}
+
 pub fn main() {
     let mut ck = Check::new("C12", "exploration");
     install_thread_panic_recorder();
-    ck.rule("repack: one case = (history x schedule): a bare repository with 100..400 reachable objects (two fast-import batches, each loose or packed, each followed by 0..2 maintenance steps), then 4..12 maintenance steps (repack -d / -a -d / -A -d / --geometric, each optionally --write-midx; prune-packed; multi-pack-index write / repack+expire; gc; 1..6 new commits as loose objects or as a pack) run by git WHILE 1..6 reader threads, each with its own handle on one shared Store (slots 6/8/12/32, multi-pack-index use on/off; per reader: auto-refresh or never, stable pack ids, no/LRU/hashmap pack cache, object cache, operation mix over try_find / try_header / contains / lookup_prefix / iter / handle clone+drop (with refresh_never or prevent_pack_unload toggles) / location_by_oid + entry_by_location / metrics, share of absent ids, perturbation none/yield/spin/sleep/mixed, all expanded from tape-provided seeds), perform lookups until the history is done; each mutator step waits for a generated number of reader operations. NON-TRIVIAL: the store reconciled with the disk at least twice during the run, at least one step that deletes packs or loose objects completed while readers were performing lookups (>= 1 reader operation began and ended inside such a step), and >= 1 object was served from >= 2 different pack ids or from a pack after having been loose. sequential: the same worlds (smaller) and handles without threads: a generated script: optional index-only warm-up per handle, then 2..8 rounds of one maintenance step followed by 1..5 bursts of operations on generated handles out of 2..4 (each handle has a habit: mixed / contains only / try_find / absent ids / location_by_oid + entry_by_location; bursts follow the habit or a generated kind incl. try_header) or a handle re-creation; deterministic and replayable. NON-TRIVIAL there: a deleting maintenance step lies between two bursts of operations of the same handle and another handle operated in between. Distinct by hash of the decoded case.");
+    ck.rule("repack: one case = (history x schedule): a bare repository with 100..400 reachable objects (two fast-import batches, each loose or packed, each followed by 0..2 maintenance steps), then 4..12 maintenance steps (repack -d / -a -d / -A -d / --geometric, each optionally --write-midx; prune-packed; multi-pack-index write / repack+expire; gc; 1..6 new commits as loose objects or as a pack) run by git WHILE 1..6 reader threads, each with its own handle on one shared Store (slots 6/8/12/32, multi-pack-index use on/off; per reader: auto-refresh or never, stable pack ids, no/LRU/hashmap pack cache, object cache, operation mix over try_find / try_header / contains / lookup_prefix / iter / handle clone+drop (with refresh_never or prevent_pack_unload toggles) / location_by_oid + entry_by_location / metrics, share of absent ids, perturbation none/yield/spin/sleep/mixed, all expanded from tape-provided seeds), perform lookups until the history is done; each mutator step waits for a generated number of reader operations. NON-TRIVIAL: the store reconciled with the disk at least twice during the run, at least one step that deletes packs or loose objects completed while readers were performing lookups (>= 1 reader operation began and ended inside such a step), and >= 1 object was served from >= 2 different pack ids or from a pack after having been loose. sequential: the same worlds (smaller) and handles without threads: a generated script: optional index-only warm-up per handle, then 2..8 rounds of one maintenance step followed by 1..5 bursts of operations on generated handles out of 2..4 (each handle has a habit: mixed / contains only / try_find / absent ids / location_by_oid + entry_by_location; bursts follow the habit or a generated kind incl. try_header) or a handle re-creation; deterministic and replayable. NON-TRIVIAL there: a deleting maintenance step lies between two bursts of operations of the same handle and another handle operated in between. slot-reuse: the script interpreter of `sequential` with a generator built to make the store hand out a slot for the second time: 2/3/4/6/8 slots, handle 0 warms up (contains or try_find of every object, rarely a few lookups), then up to slots + 4 rounds of [replace every index: 1 new commit + repack -a -d (--write-midx) | add a pack (in 56 % of the worlds: an isomorphic history in a pack of identical layout written with pack.compression=0) | multi-pack-index write | any other step], each usually followed by an absent-id lookup of handle 1 (forces the store to reconcile with the disk), rarely by operations of handle 0 or 2; finally every handle performs try_find of every object. NON-TRIVIAL there: handle 0 operated before and after a run of >= 2 reconciliations it slept through, and index files at the start + upper bound of index files created > slots. Distinct by hash of the decoded case.");
     ck.assume(&format!("history is applied by {}; every object of the world is reachable from a ref, so no maintenance step may drop it (checked: after the run git still has every object)", Git::version()));
     ck.assume("repack: schedules are sampled (OS threads + generated perturbation), not enumerated; a violation that needs one specific rare interleaving can be missed; verdicts do not depend on wall-clock time");
     ck.assume("an Err whose source is io::ErrorKind::NotFound (a file the mutator has just deleted) is re-queried once and counts only if the retry fails too; InsufficientSlots errors are not violations (the generated slot count may be too small for the history) and are reported as a label; `contains()` = false is attributed to InsufficientSlots when try_header right afterwards reports that error");
     ck.assume("content is judged by SHA-1 computed by the harness (sha1_smol), not by gix-hash");
+    ck.assume("wrong content from a handle that has a pack cache is attributed to the known finding stale-pack-cache:wrong-content if and only if the same handle returns the right bytes when the caches of gix_odb::Cache are bypassed (store handle asked with gix_pack::cache::Never); such lookups are counted, the world keeps running, and any other violation in the same world takes precedence");
 
     ck.sub("sequential", SubCfg::new(120, 4000).max_len(300).max_shrink(40), |t, c| {
         let (w, script) = gen_sequential(t);
-        c.key(&(&w, &script));
-        c.sample_with(|| render_sequential(&w, &script));
-        let fp = fingerprint(&(&w, &script));
-        if cached_failure(c, fp) {
-            return;
-        }
-        let steps: Vec<&Step> = script.iter().filter_map(|a| if let Act::Git(s) = a { Some(s) } else { None }).collect();
-        world_labels(c, &w, &steps);
-        // non-trivial: ops(H) .. ops(other) .. destructive git .. ops(other)? .. ops(H), in script order
-        let mut nontrivial = false;
-        for (i, a) in script.iter().enumerate() {
-            if let Act::Git(s) = a {
-                if !s.destructive() {
-                    continue;
-                }
-                let before: BTreeSet<u8> = script[..i].iter().filter_map(|a| if let Act::Ops { handle, .. } = a { Some(*handle) } else { None }).collect();
-                let after: Vec<u8> = script[i + 1..].iter().filter_map(|a| if let Act::Ops { handle, .. } = a { Some(*handle) } else { None }).collect();
-                let after_set: BTreeSet<u8> = after.iter().copied().collect();
-                if before.iter().any(|h| after_set.contains(h)) && after_set.len() >= 2 {
-                    nontrivial = true;
-                }
-            }
-        }
-        c.nontrivial(nontrivial);
-        let Some(mut b) = build_world(c, &w, &steps, "c12s") else { return };
-        let described = render_sequential(&w, &script);
-        let mut handles: Vec<Option<OdbHandle>> = Vec::new();
-        for (h, r) in b.handles.drain(..).zip(w.readers.iter()) {
-            let mut h = h;
-            if r.stable_pack_ids {
-                h.prevent_pack_unload();
-            }
-            if !r.auto_refresh {
-                h.refresh_never();
-            }
-            handles.push(Some(h));
-        }
-        let mut outs: Vec<ReaderOut> = w.readers.iter().map(|_| ReaderOut::default()).collect();
-        let mut locations: Vec<Vec<StoredLocation>> = w.readers.iter().map(|_| Vec::new()).collect();
-        let mut buf = Vec::new();
-        let mut next_commit = w.commits_a as usize + w.commits_b as usize;
-        for (ai, a) in script.iter().enumerate() {
-            match a {
-                Act::Git(step) => {
-                    if let Err(e) = apply_step(&b.git, step, ai, &mut next_commit, w.files as usize, &b.shared) {
-                        c.infra(format!("step {ai} ({}): {e}", step.name()));
-                        return;
-                    }
-                }
-                Act::Recreate { handle } => {
-                    let k = *handle as usize;
-                    handles[k] = None;
-                    locations[k].clear();
-                    let r = &w.readers[k];
-                    let mut h = new_handle(&b.first, r);
-                    if r.stable_pack_ids {
-                        h.prevent_pack_unload();
-                    }
-                    if !r.auto_refresh {
-                        h.refresh_never();
-                    }
-                    handles[k] = Some(h);
-                }
-                Act::Ops { handle, kind, count, seed } => {
-                    let k = *handle as usize;
-                    let r = &w.readers[k];
-                    let mut spec = r.clone();
-                    let mut rng = Rng(*seed as u64 * 2 + 1);
-                    let total: u32 = r.mix.iter().map(|m| *m as u32).sum();
-                    for _ in 0..*count {
-                        let op = match kind {
-                            0 => {
-                                spec.absent = 32;
-                                let mut x = rng.below(total as usize) as u32;
-                                let mut op = 0;
-                                for (i, m) in r.mix.iter().enumerate() {
-                                    if x < *m as u32 {
-                                        op = i;
-                                        break;
-                                    }
-                                    x -= *m as u32;
-                                }
-                                op
-                            }
-                            1 => {
-                                spec.absent = 0;
-                                2
-                            }
-                            2 => {
-                                spec.absent = 0;
-                                0
-                            }
-                            3 => {
-                                spec.absent = 255;
-                                [0usize, 2, 1][rng.below(3)]
-                            }
-                            4 => {
-                                spec.absent = 0;
-                                1
-                            }
-                            5 => {
-                                spec.absent = 0;
-                                6
-                            }
-                            _ => 7,
-                        };
-                        let h = handles[k].as_ref().expect("handle present");
-                        let out = &mut outs[k];
-                        let res = std::panic::catch_unwind(std::panic::AssertUnwindSafe(|| {
-                            one_op(h, r.auto_refresh, r.stable_pack_ids, op, &b.shared, &mut rng, &spec, out, &mut buf, &mut locations[k]);
-                        }));
-                        outs[k].ops += 1;
-                        if res.is_err() {
-                            let tid = std::thread::current().id();
-                            let rec = THREAD_PANICS
-                                .lock()
-                                .ok()
-                                .and_then(|mut g| g.iter().rposition(|(t, _, _)| *t == tid).map(|p| g.remove(p)));
-                            outs[k].panic = Some(rec.map(|(_, l, m)| (l, m)).unwrap_or_else(|| ("unknown".into(), "panic".into())));
-                            break;
-                        }
-                    }
-                    if outs[k].panic.is_some() || !outs[k].violations.is_empty() {
-                        break;
-                    }
-                }
-            }
-        }
-        drop(handles);
-        if !judge(c, &b, &outs, &described) {
-            remember_failure(c, fp);
-            return;
-        }
-        let _ = outcome_labels(c, &b, &outs);
+        run_script(c, &w, &script, "c12s", false);
+    });
+
+    ck.sub("slot-reuse", SubCfg::new(64, 4000).max_len(300).threads(4).max_shrink(40), |t, c| {
+        let (w, script) = gen_slot_reuse(t);
+        run_script(c, &w, &script, "c12r", true);
     });
 
     // no shrinking: a schedule-dependent failure rarely survives a changed tape, and every evaluation is expensive
